@@ -26,6 +26,12 @@ var stubByName = func() map[string]StubInfo {
 func (w *World) runThread(ti int, th *Thread) {
 	m := w.mgrs[th.Mgr]
 	simrt.Gate("thread-start", func() bool { return m.readyA.Load() })
+	if w.Cfg.FreeTasks {
+		// race-detector runs: the threads of a manager wake up from polling at different (fake)
+		// instants, i.e. in different quiescence epochs, and would then never run at the same time;
+		// let them start together. (The barrier orders what came before it, not what follows.)
+		w.barrier(fmt.Sprintf("start/%d", th.Mgr), w.threadsOf(th.Mgr))
+	}
 	defer func() {
 		if r := recover(); r != nil {
 			simrt.RecordPanic(r)
@@ -41,6 +47,12 @@ func (w *World) runThread(ti int, th *Thread) {
 		case "call":
 			simrt.Yield("op:call")
 			made[oi] = w.doCall(m, ti, oi, op)
+			if c := made[oi]; c != nil && op.CancelAfter && c.cancel != nil && c.ReturnSeq != 0 {
+				switch {
+				case c.Info.Kind == "rpc", c.Info.Kind == "qc", (c.Info.Kind == "mcast" || c.Info.Kind == "ucast") && !op.NoSendWait:
+					w.cancelAfterReturn(c)
+				}
+			}
 		case "get":
 			simrt.Yield("op:get")
 			if c := made[op.Ref]; c != nil {
@@ -56,6 +68,21 @@ func (w *World) runThread(ti int, th *Thread) {
 			w.doClose(m, op.N)
 		case "pause":
 			simrt.Yield("op:pause")
+		case "barrier":
+			if w.Cfg.FreeTasks {
+				w.barrier(fmt.Sprintf("op/%d/%d", th.Mgr, op.Cfg), op.N)
+			}
+		case "cfgstorm":
+			// derive configurations from the most recently derived ones (which other threads are
+			// using as operands at the same time), with every operation of the algebra
+			simrt.Yield("op:cfgstorm")
+			kinds := []string{"and", "newnodes", "except", "and", "without", "ids"}
+			for k := 0; k < op.N; k++ {
+				w.mu.Lock()
+				n := len(m.cfgs)
+				w.mu.Unlock()
+				w.doNewCfg(m, &Op{Kind: "newcfg", Stub: kinds[(k+op.Cfg)%len(kinds)], Cfg: max(0, n-1-k%2), N: 1 + k%3})
+			}
 		case "newcfg":
 			simrt.Yield("op:newcfg")
 			for k := 0; k < 1+9*b2i(w.Cfg.FreeTasks); k++ {
@@ -176,6 +203,63 @@ func (w *World) ctxEnded(c *Call, why string) {
 		w.events = append(w.events, Event{Seq: c.CtxEndSeq, Step: w.step, Kind: "ctx-end", Attr: fmt.Sprintf("tok=%d why=%s", c.Tok, why)})
 	}
 	w.mu.Unlock()
+}
+
+// threadsOf counts the threads of manager mi.
+func (w *World) threadsOf(mi int) int {
+	n := 0
+	for _, th := range w.Prog.Threads {
+		if th.Mgr == mi {
+			n++
+		}
+	}
+	return n
+}
+
+// barrier blocks until n tasks have arrived at the barrier named key (free-task mode only).
+func (w *World) barrier(key string, n int) {
+	w.mu.Lock()
+	if w.barriers == nil {
+		w.barriers = map[string]*barrierRec{}
+	}
+	b := w.barriers[key]
+	if b == nil {
+		b = &barrierRec{ch: make(chan struct{})}
+		w.barriers[key] = b
+	}
+	b.n++
+	if b.n == n {
+		close(b.ch)
+	}
+	ch := b.ch
+	w.mu.Unlock()
+	select {
+	case <-ch:
+	case <-time.After(10 * time.Second): // (fake time) a sibling never arrived: go on alone
+	}
+}
+
+type barrierRec struct {
+	n  int
+	ch chan struct{}
+}
+
+// cancelAfterReturn cancels the context of a call whose stub has returned (defer cancel()).
+func (w *World) cancelAfterReturn(c *Call) {
+	w.mu.Lock()
+	for _, ca := range w.cancels {
+		if ca.c == c {
+			if ca.fired {
+				w.mu.Unlock()
+				return
+			}
+			ca.fired = true
+		}
+	}
+	w.mu.Unlock()
+	w.ctxEnded(c, "cancel-after-return")
+	c.cancel()
+	w.probe("cancel-after-return")
 }
 
 // syncCtx records the end of the call's context if the context has ended but the (asynchronous)
